@@ -213,5 +213,134 @@ CHECKS = {
           "semantics and report order over histories are not decided.",
   "note": ASSUME + "EnableDeviceType applies to the next forward frame "
           "only."},
+ "C01": {
+  "technique": "abstract interpretation of the whole decoder chain "
+               "(Command.from_frame down to every from_frame override) over "
+               "a known-bits / bit-provenance lane domain with cube "
+               "partitioning; who-may-write effect analysis; attribute "
+               "definedness",
+  "text": "The decoders are interpreted on a fully symbolic 16-bit and "
+          "24-bit frame (with no instance map, an empty map and a typed "
+          "map) and on every other width 1..64; each of the ~8400 leaf "
+          "cases carries the cube of input bits it covers, so together "
+          "they cover all 2^16 + 2^24 frames x device types 0..255.  Per "
+          "leaf: no exception, a Command object is returned, and each lane "
+          "of its stored frame is the input lane at the same position "
+          "(decode then .frame is the identity).  Separately: decode paths "
+          "write no module/class state, registries, input frame or "
+          "instance map; no Command/Address/Instance defines "
+          "__bool__/__len__; __str__ of each decoded class reads only "
+          "attributes the decoder defined.",
+  "note": ASSUME + "The codec interpreter (dalint/codec.py) models the "
+          "subset of Python the codec modules use and stops with "
+          "ANALYSIS-ERROR on anything else; Frame slice/int semantics are "
+          "those proved for C05."},
+ "C02": {
+  "technique": "abstract interpretation of every constructor on symbolic, "
+               "unvalidated parameters followed by the decoder chain; "
+               "interval/raising-guard analysis; registry-key injectivity "
+               "by constant folding",
+  "text": "For each of the ~330 concrete command classes and each legal "
+          "argument shape (address kind x instance kind x parameter), the "
+          "constructor is interpreted with every integer argument an "
+          "unbounded symbolic value; the resulting frame lanes are decoded "
+          "again and the result must be the same class with structurally "
+          "equal fields, for all values that pass validation (2200+ "
+          "shapes).  Every parameter must be bounded by a raising guard "
+          "(or a fitting slice store) before it reaches frame bits "
+          "(UNVALIDATED/TRUNCATED markers), and no two commands share a "
+          "decode-registry key.",
+  "note": ASSUME + "Shapes are those the class hierarchy admits; device "
+          "type context for application-extended commands is the class's "
+          "own devicetype."},
+ "C03": {
+  "technique": "table comparison: command table extracted by constant "
+               "folding and interpretation of the registration code vs "
+               "hand-transcribed IEC 62386 tables, both directions; "
+               "lane-by-lane layout comparison of abstractly constructed "
+               "frames",
+  "text": "Every concrete command class's (family, opcode/selector, "
+          "device type or instance type, send-twice, response, DTR flags, "
+          "parameter kind) is extracted from the source and compared with "
+          "322 transcribed rows of Parts 102/103/202/205/206/207/209/301/"
+          "303/304, and every transcribed row must have a class (two-way). "
+          " The frame each constructor builds for each address/instance "
+          "shape is computed symbolically and compared lane by lane with "
+          "the layout the standard assigns (address byte, selector bit, "
+          "opcode, parameter position, special-command bytes, instance "
+          "byte): 1586 frames.  Encode/decode mistakes that cancel out are "
+          "therefore visible here.",
+  "note": ASSUME + "The transcription in spec/iec62386_tables.txt is the "
+          "oracle (one row, StartAutoCalibration's send-twice flag, is "
+          "left unarmed because the editions disagree; see DESIGN.md)."},
+ "C04": {
+  "technique": "abstract interpretation of add_to_frame/from_frame over "
+               "bit lanes; exhaustive partition check of address prefixes "
+               "and instance bytes against the standard's table; "
+               "structural analysis of __eq__",
+  "text": "For each of the 18 address/instance kinds with a symbolic "
+          "number: add_to_frame writes only the kind's own field lanes "
+          "(other lanes keep their input provenance); from_frame of the "
+          "result is the same kind with the same number; a frame of the "
+          "wrong size raises IncompatibleFrame before any store.  The "
+          "decode-side partition of the 7 address bits / 8 instance bits "
+          "is enumerated and equals the standard's (every value exactly "
+          "one kind or reserved).  __eq__ is true exactly for same kind "
+          "and same number (reflexive on every kind; gear and device kinds "
+          "never equal).",
+  "note": ASSUME + "Numbers are validated by the constructors (checked as "
+          "part of R-ADDR-RT shapes)."},
+ "C05": {
+  "technique": "symbolic-width bit-lane algebra over Frame's methods "
+               "(linear index arithmetic with facts), ownership "
+               "(who-may-write) rule, validate-before-mutate dominance, "
+               "exception-table comparison",
+  "text": "Frame.__getitem__/__setitem__/__add__/as_integer/as_byte_"
+          "sequence/pack/pack_len/__eq__ are evaluated over a symbolic "
+          "width n and symbolic indices: each is shown to read or write "
+          "exactly the lanes the documentation states (slice hi:lo in "
+          "either order, single bit as bool, concat left-high, big-endian "
+          "byte views of the same number, zero-length pack for n == 0); "
+          "_data/_bits/_error are assigned only by the owner methods; "
+          "every raise precedes every store and stores are dominated by "
+          "all guards; the set of (condition -> exception type) pairs "
+          "equals spec/frame_exceptions.json.",
+  "note": ASSUME + "Python int shift/mask semantics (axioms of the lane "
+          "algebra listed in dalint/lanes.py)."},
+ "C12": {
+  "technique": "decode-leaf comparison: the abstractly interpreted event "
+               "decoder's leaf cases vs IEC 62386-103 Table 3 and the "
+               "Part 301/303/304 event tables; registry folding; who-may-"
+               "write on the instance map",
+  "text": "Every decode leaf of a 24-bit frame whose bit 16 is 0 (all "
+          "scheme prefixes x instance types 0..31 x map states) is "
+          "compared with Table 3: the scheme chosen, which of short "
+          "address / group / instance number / instance type / instance "
+          "group are set and from which lanes, all others None, the 10 "
+          "data lanes carried unchanged, and the event class chosen from "
+          "instance type and data (unknown type or out-of-range data -> "
+          "generic event; ambiguous scheme without map entry -> "
+          "AmbiguousInstanceType).  The type registry is 1/3/4; "
+          "retry_decode is one decode of the stored frame with the given "
+          "map; add_type/get_type normalise keys identically and _mapping "
+          "has no other writer.",
+  "note": ASSUME + "Table 3 as transcribed in dalint/props/C12.py."},
+ "C18": {
+  "technique": "symbolic evaluation of each driver's frame-to-wire "
+               "encoder into a byte template (constants, frame byte lanes, "
+               "flags) compared with transcribed wire formats; interval "
+               "fixpoint + two-step composition for sequence counters",
+  "text": "For hasseb, Tridonic, daliserver, ATX, Luba/Lunatone serial, "
+          "SCI and the legacy drivers the bytes handed to the transport "
+          "are computed as a template over (frame width, frame bytes, "
+          "sendtwice) and compared field by field with spec/wire/*.json: "
+          "length, constant bytes, mode code per frame size, send-twice "
+          "flag, byte order, padding, checksum span, refusal of "
+          "unsupported widths.  Sequence counters are shown to stay in "
+          "range and never repeat consecutively by interval analysis.  "
+          "What the adapter does with the bytes is not decided.",
+  "note": ASSUME + "The wire formats in spec/wire are transcribed from "
+          "the vendors' protocol descriptions quoted in the drivers' own "
+          "comments."},
 }
 NA = {}
